@@ -81,7 +81,8 @@ def extra_checks(world):
                 out.append(ob(f"C19/tables-monotone[{pair}]/{enum}", not gone, f"{len(tv)} <= {len(tw)} values", enum,
                               {"table_difference": {"enum": enum, "older": hcx.VTAG[v], "newer": hcx.VTAG[w], "values": gone}} if gone else None))
             for const in ("INTERNAL_COMMAND_TYPE", "STRICT_SYSTEM_COMMAND_TYPES", "VALID_SYSTEM_COMMAND_TYPES", "NODE_ID_REQUEST_TYPES"):
-                cv, cw = D[v].mod.ns.get(const), D[w].mod.ns.get(const)
+                from pyvc.core import unpoisoned
+                cv, cw = unpoisoned(D[v].mod.ns.get(const)), unpoisoned(D[w].mod.ns.get(const))  # (Unsupported if defined outside the subset)
                 norm = lambda x: sorted(getattr(m, "value", m) for m in x) if isinstance(x, (set, frozenset, list, tuple)) else getattr(x, "value", x)  # noqa: E731
                 out.append(ob(f"C19/same-constants[{pair}]/{const}", norm(cv) == norm(cw), f"{norm(cv)} vs {norm(cw)}", const))
     return out
@@ -128,7 +129,8 @@ def make_domain(world):
     tables = {}
     for tag in ORDER:
         ns = world.modules[hcx.PROTO + "protocol_" + tag].ns
-        tables[tag] = {nm: sorted(ns[nm].enum_canon) for nm in ("Presentation", "SetReq", "Internal", "Stream")}
+        from pyvc.core import unpoisoned
+        tables[tag] = {nm: sorted(unpoisoned(ns[nm]).enum_canon) for nm in ("Presentation", "SetReq", "Internal", "Stream")}
 
     def domain(I, env, ta, tb):
         m = env.get("message")
